@@ -55,6 +55,10 @@ type Spec[C any] struct {
 	// Retry: when true a failing case is re-executed once in isolation and only a
 	// reproduced failure is a violation (timing / schedule dependent oracles).
 	Retry bool
+	// Journal: write every case to a journal file before running it, so that the
+	// driver can turn the last case into a replay when the process dies (in-process
+	// frps brought down by an unrecovered panic / fatal error).
+	Journal bool
 }
 
 type checkStats struct {
@@ -255,6 +259,17 @@ func oneLine(s string) string {
 	return s
 }
 
+func journal(prop, name string, c any) {
+	out := os.Getenv("VERIF_STATS_OUT")
+	if out == "" {
+		return
+	}
+	b, _ := json.Marshal(c)
+	rf := replayFile{Property: prop, Check: name, Error: "process died while running this case", Case: b}
+	j, _ := json.Marshal(rf)
+	_ = os.WriteFile(out+".journal", j, 0o644)
+}
+
 var replayers = map[string]func(json.RawMessage) error{}
 
 // Run executes one sub-check under rapid with the tier's case count and the
@@ -302,6 +317,9 @@ func Run[C any](t *testing.T, s Spec[C]) {
 	}()
 	rapid.Check(t, func(rt *rapid.T) {
 		c := s.Gen(rt)
+		if s.Journal {
+			journal(s.Prop, s.Name, c)
+		}
 		err := s.Run(c)
 		if err != nil && !IsInconclusive(err) && s.Retry {
 			err2 := s.Run(c)
